@@ -97,7 +97,7 @@ func CheckC17(c *Ctx) {
 			a[m] = 0
 			add(v.Canonical(a))
 		}
-		for len(inputs) < c.Pick(500, 25_000) {
+		for len(inputs) < c.Pick(2000, 25_000) {
 			a := gen.SparseAssign(r, v, r.Intn(5), 4)
 			s, _ := gen.RandomSpelling(r, v, a)
 			add(s)
